@@ -176,18 +176,23 @@ def rule_defn(which):
                     all(a[3][1:] == (("arg", 2),) for a in atoms) and all(table[k] == (k[0] and k[1]) for k in table)
                 o.check(ok, prog.pretty[p], "is-isolated-definition", "is_isolated(u) is not is_sink(u) && is_source(u)", prog.fns[p]["span"])
             closure_defs(crate, o, QUERY_CLOSURES)
+            for p in impl_fns(crate, "graaf::op::has_walk::HasWalk", "has_walk"):
+                walk_clause(crate, o, p)
             return o.report(floors={"derived query definitions": (o.instances, 4)}, note=undecided_note(o))
         # predicates -----------------------------------------------------------------
         pairs = (("graaf::op::is_semicomplete::IsSemicomplete", "is_semicomplete", "or"),
                  ("graaf::op::is_tournament::IsTournament", "is_tournament", "xor"))
         for trait, name, fn in pairs:
             for p in impl_fns(crate, trait, name):
+                before = o.instances
                 for bp in family_bodies(crate, p):
                     if prog.fns[bp]["kind"] != "Closure":
                         continue
                     an = crate.an(bp)
                     atoms, table = truth_table(crate, an, {HAS_ARC})
                     if atoms is None or not swapped_pair(atoms):
+                        if bp == family_bodies(crate, p)[-1] and o.instances == before:
+                            o.undecided.append((prog.pretty[p], "no pair test written over has_arc(u, v) / has_arc(v, u)"))
                         continue
                     ckey = consumer_of(crate, prog.fns[bp].get("parent"), bp)[0]
                     if ckey != IT + "all":
@@ -536,3 +541,116 @@ def pair_scan(crate, inner_closure):
                 pfx = crate.fx(parent)
                 return any(pfx.holds(0, lambda rel, x=x: rel.eq(N1, x)) for x in outs)
     return False
+
+
+# ---------------------------------------------------------------------------
+def walk_clause(crate, o, p):
+    """has_walk(walk) = walk.len() > 1 and has_arc(walk[i], walk[i + 1]) for every i in 0..len-1.  Decided for the two
+    spellings in use: all() over walk.iter().zip(walk.iter().skip(1)) / walk.windows(2), and the pointer loop
+    `p = as_ptr; end = as_ptr + (len - 1); while p < end { has_arc(*p, *(p + 1)); p += 1 }`"""
+    from .rules2 import subst_phis
+    prog = crate.prog
+    an = crate.an(p)
+    fx = crate.fx(p)
+    who = prog.pretty[p]
+    W = ("at", "A2", None, ("e",), ())
+    LEN = ("len", W)
+    ASP = ("call", "slice::as_ptr", ("usize",), (W,))
+    one = ("const", "usize", 1)
+    F, T = ("const", "bool", 0), ("const", "bool", 1)
+    rets = [ev for ev in an.events if ev["k"] == "return"]
+    # -- pointer loop ---------------------------------------------------------------------------------
+    ploops = []
+    for h in an.cfg.loops:
+        for var in an.phis.get(h, ()):
+            if not var.startswith("v"):
+                continue
+            ins = list(zip([pb for pb, _ in an.cfg.pred[h]], an.phi_inputs(h, var)))
+            init = [t for pb, t in ins if not an.cfg.dominates(h, pb)]
+            step = [t for pb, t in ins if an.cfg.dominates(h, pb)]
+            if init == [ASP] and step and all(t[0] == "call" and t[1] == "rawptr::add" and t[3][0] == ("phi", h, var) for t in step):
+                ploops.append((h, var, step))
+    if ploops:
+        o.instances += 1
+        h, var, step = ploops[0]
+        P = ("phi", h, var)
+        body = an.cfg.loops[h]
+        o.check(all(t[3][1] == one for t in step), who, "walk-step", "the cursor over the walk does not advance by exactly one vertex per "
+                "iteration: consecutive pairs are skipped", prog.fns[p]["span"])
+        END = ("call", "rawptr::add", ("usize",), (ASP, ("bin", "Sub", LEN, one)))
+        hsw = [ev for ev in an.events if ev["k"] == "switch" and ev["b"] == h]
+        o.check(len(hsw) == 1 and hsw[0]["discr"] == ("bin", "Lt", P, END), who, "walk-end",
+                "the loop does not run while cursor < as_ptr + (len - 1)", prog.fns[p]["span"])
+        calls = [ev for ev in an.events if ev["k"] == "call" and ev["key"] == HAS_ARC and ev["b"] in body]
+        nxt = ("call", "rawptr::add", ("usize",), (P, one))
+        okp = len(calls) == 1 and calls[0]["args"][0] == ("arg", 1) and calls[0]["args"][1][0] == "mem" and calls[0]["args"][1][3] == P \
+            and calls[0]["args"][2][0] == "mem" and calls[0]["args"][2][3] == nxt and all(an.cfg.dominates(calls[0]["b"], lb)
+                                                                                        for lb, _ in an.cfg.pred[h] if an.cfg.dominates(h, lb))
+        o.check(okp, who, "walk-pair", "an iteration does not test has_arc(*cursor, *(cursor + 1))", prog.fns[p]["span"])
+        if okp and len(rets) == 1:
+            res = calls[0]["res"]
+            exits = [(x, tg, lab) for x in body for tg, lab in an.cfg.succ[x] if tg not in body and tg in an.cfg.can_return]
+            good = True
+            for x, tg, lab in exits:
+                reach = an.cfg.reachable_from(tg) | {tg}
+                val = subst_phis(an, fx, rets[0]["val"], lambda pb, reach=reach, x=x: pb in reach or pb == x)
+                if x == h:
+                    good = good and val == T
+                else:
+                    atoms = fx.close(fx.edge_atoms(x, lab, tg))
+                    good = good and ("false", res) in atoms and val == F
+            o.check(good and len(exits) == 2, who, "walk-verdict", "the loop is not left with `false` exactly when a pair is no arc and with "
+                    "`true` when the cursor reaches the end", prog.fns[p]["span"])
+        short = fx_short = None
+        return
+    # -- all() over consecutive pairs -------------------------------------------------------------------
+    alls = [ev for ev in an.events if ev["k"] == "call" and ev["key"] == IT + "all" and len(ev["args"]) == 2]
+    for ev in alls:
+        src = ev["args"][0]
+        if src[0] == "addr":
+            src = fx.iter_desc(ev)
+        clo = ev["args"][1]
+        if not (src and src != "CYCLE" and clo[0] == "agg" and clo[1] == "closure"):
+            continue
+        it = ("call", "slice::iter", ("usize",), (W,))
+        zipf = src[0] == "call" and src[1] == IT + "zip" and len(src[3]) == 2 and src[3][0] == it and \
+            src[3][1][0] == "call" and src[3][1][1] == IT + "skip" and src[3][1][3][0] == it
+        winf = src[0] == "call" and src[1] == "slice::windows" and src[3][0] == W
+        if not (zipf or winf):
+            continue
+        o.instances += 1
+        if zipf:
+            o.check(src[3][1][3][1] == one, who, "walk-step", "the second cursor is not one vertex ahead of the first", ev["span"])
+        else:
+            o.check(src[3][1] == ("const", "usize", 2), who, "walk-step", "the windows over the walk are not pairs", ev["span"])
+        can = crate.an(clo[2])
+        crets = [e for e in can.events if e["k"] == "return"]
+        okc = False
+        if len(crets) == 1:
+            r = crets[0]["val"]
+            if r[0] == "call" and r[1] == HAS_ARC and len(r[3]) == 3:
+                a1, a2 = r[3][1], r[3][2]
+                if zipf:
+                    okc = a1 == ("mem", "A2.0*", ("e",), None) and a2 == ("mem", "A2.1*", ("e",), None)
+                else:
+                    from .schema import elem_access
+                    def widx(t):
+                        if t[0] == "mem" and t[3] is not None and t[3][0] == "elem" and t[3][1] == ("arg", 2):
+                            return t[3][2]
+                        if t[0] == "mem" and t[3] is not None:
+                            c, i = elem_access(t[3])
+                            if c is not None and (c == ("arg", 2) or (c[0] == "at" and c[1] == "A2")):
+                                return i
+                        return None
+                    okc = widx(a1) == ("const", "usize", 0) and widx(a2) == one
+        o.check(okc, who, "walk-pair", "the pair test is not has_arc(u, v) on the two consecutive vertices", ev["span"])
+        if len(rets) == 1:
+            rv = rets[0]["val"]
+            ins = set()
+            if rv[0] == "phi" and len(rv) == 3:
+                ins = set(an.phi_inputs(rv[1], rv[2]))
+            else:
+                ins = {rv}
+            o.check(ins <= {F, ev["res"]} and ev["res"] in ins, who, "walk-verdict", "the result is not `len > 1 && all pairs are arcs`", ev["span"])
+        return
+    o.undecided.append((who, "has_walk is written neither over consecutive pairs with all() nor as the cursor loop"))
